@@ -8,6 +8,16 @@ ids = [p["id"] for p in props]
 HOOK_COMMITS = ["332865e1b", "bf49db00e", "0b99e4fc0", "68bfb6d5a"]
 
 CHECKS = {
+ "C07": dict(
+   level="exploration", design="§4 C07",
+   technique="runtime monitoring: per-group reference oracle (Python) over echoed rows; split/order homomorphism monitor (same data in 3 row orders x 1/2/3/8 partitions x adversarial controlled schedules must give the same groups and aggregates)",
+   text="30 aggregates (count/sum/avg/min/max over ints, doubles, text; bool_and/or, bit_and/or, string_agg, stddev/var pop/samp, DISTINCT variants, first) are computed in one query per grouping form (ungrouped, GROUP BY g, g+b, ROLLUP, CUBE with GROUPING(), SELECT DISTINCT, UNION, empty input) for group keys of 12 types and cardinalities from 1 to thousands of groups (hash tables resize during build and merge), and compared group by group with a Python computation; the same table is loaded in three row orders and aggregated under 1/2/3/8 partitions with starve/lifo/pct/random schedules. Sampled data.",
+   note="Float inputs are dyadic so sums are exact in any order; string_agg is compared as a multiset of pieces, first() by membership. ROLLUP/CUBE over empty input is not compared (undocumented). FILTER is 'not implemented' after fix b7ac3cc0f."),
+ "C08": dict(
+   level="exploration", design="§4 C08",
+   technique="runtime monitoring: comparator oracle on adjacent output rows + permutation (bag) check against the echoed input + admissible-slice monitor; limit-hint sort vs full sort differential (optimizer on/off)",
+   text="All 65536 SMALLINT and USMALLINT values (exhaustive sub-spaces) plus NULLs are sorted from a scrambled order under direction x null-placement combinations with many sort blocks and 1-8 partitions; boundary values of every sortable type (NaN, +-0, +-inf, doubles differing only in low mantissa bits, decimals at both widths, strings sharing >12-byte prefixes, dates, booleans) are sorted by 1-4 mixed keys with batch sizes 4-2048; LIMIT/OFFSET around 0/batch/input size is checked with the admissible-slice rule, with ORDER BY (limit hint on and off) and without.",
+   note="HALF-float keys and binary keys with 0x00/0xFF bytes need Parquet-loaded data and are exercised by C10's files, not here. -0.0 vs +0.0 have no documented order and only meet in single-key sorts."),
  "C06": dict(
    level="exploration", design="§4 C06",
    technique="runtime monitoring: nested-loop reference oracle (Python, SQL three-valued conditions) over the echoed table contents, conservation monitors on the engine's own answers, hash vs nested-loop differential by configuration",
